@@ -75,6 +75,18 @@ CLAIMED = {
         note="Trusted: Coq kernel, extraction, harness; grapheme segmentation is a parameter (seg_faithful on seg_simple texts is validated on every run; for texts with combining marks etc. the real crate's segmentation is fed to the model); private flags read from Atom's Debug output. Axioms: none.",
         technique="Coq proof over a hand model parameterised by segmentation + differential correspondence with spec oracle",
     ),
+    "C08": dict(
+        text="Coq theorems over the yield-point-granular interleaving model of boxcar.rs: Location::of is injective, in range and tiles the index space for every valid u32 index (C08_location*, arithmetic with N.log2, no sweep); a reservation returns exactly the next free indices (distinct, gap-free: C08_reserve, C08_exclusive); a lookup returns nothing or a completely written item of an assigned index with exactly the columns its fill produced (C08_no_phantom); when push returns its item is visible (C08_push_visible) and stays visible at the same index with the same content forever (C08_stable); an index owned by an unfinished writer is invisible (C08_owned_invisible); the counter never decreases (C08_count_mono). For every well-formed history: any number of threads, push / extend of any batch size with lying iterators and panicking fills, any interleaving, any capacity. Tie: real threads parked by a scheduler at every yield point (after fetch_add, before every bucket CAS, before every publication), stepped by random schedules incl. bucket-boundary races; every observation compared with the extracted model and checked by the spec oracle.",
+        design_ref="DESIGN.md section 6, C08",
+        note="Trusted: Coq kernel, translator (SKIP, BUCKETS, MAX_ENTRIES), extraction, scheduler harness; sequential consistency at yield-point granularity (release/acquire is C09). Axioms: none.",
+        technique="Coq inductive invariant over an interleaving LTS + scheduled-history correspondence",
+    ),
+    "C09": dict(
+        text="Coq theorems over a hand-written release/acquire machine (per-object views, stale reads allowed, any number of threads) of the vector's atomic protocol, parameterised by the memory orderings: orderings_ok o => no reachable racing step (C09_race_free, invariant proof); the orderings TRANSLATED from the current source satisfy orderings_ok (C09_current_ok: this obligation breaks as soon as someone weakens a needed ordering); every conjunct is necessary (11 machine-checked racing executions, C09_need_*); the pinned tree's Relaxed bucket-pointer loads in get / Iter::next race (C09_pinned_races; fixed in b3cd6a2). The check additionally evaluates the required conjunction directly on the translated table (oracle independent of the Coq predicate), ties the site order by scheduled histories, and runs a Miri probe in the thorough tier. Partial: the worker clause (per-thread matcher scratch, result list accessed only under the mutex / inside fork-join) rests on trusted rayon and parking_lot happens-before edges and is not modelled.",
+        design_ref="DESIGN.md section 6, C09",
+        note="Trusted: Coq kernel, translator (atomic site table), the hand-written RC11-style semantics of Model/BoxcarRA.v (SeqCst treated as AcqRel, no load buffering), program order of the vector's accesses hand-modelled; compiler/hardware conformance and third-party crates are outside. Axioms: none.",
+        technique="Coq invariant proof over a release/acquire transition system parameterised by translator-regenerated orderings",
+    ),
 }
 PENDING_REASON = "not claimed yet: the Coq model, theorems and code tie for this property are still being built in this session (design in DESIGN.md section 6); no other technique is substituted"
 
